@@ -26,6 +26,17 @@ lockstep over the capability grid
                 seen SA flag allows it
   vary        : the scripted receiver raises and lowers its window with every ack
                 (a smaller window is granted with a partial ack inside it)
+  long        : 257 / 267 (thorough also 513 / 600) segments in both directions, own
+                proposal 16, the receiver grants 4 (thorough also 1, 7): the wire
+                sequence number wraps; every non-first segment must carry the window
+                the last SegmentAck granted
+  cache       : the REAL DeviceInfoCache against Model.Tsm.Cache, operation by operation:
+                histories of I-Am (4 instances, 3 addresses, as octets) / acquire /
+                release; oracle: after an I-Am the lookups by address and by instance
+                return what it announced
+  cache-history: I-Ams of several instances from several addresses (announcing again,
+                taking an address over) interleaved with requests in flight / retried /
+                finished; every request is sized by the LATEST I-Am from its destination
   loss        : senders with own window {2,8,16,127} whose first segment / first ack
                 is lost 1..2 times (segment timer fires before any SegmentAck), the
                 receiver then grants window 1
@@ -132,7 +143,13 @@ class InFlight:
         self.unacked = set()
         self.worst = 0
 
-    def sent(self, seq):
+    def sent(self, seq, win=None):
+        # once a SegmentAck has been accepted every segment is a NON-FIRST one (the first is
+        # never sent again): its window field is the ACTUAL window, i.e. what the last ack
+        # granted - also for segment 256, 512, ... whose wire sequence number is 0 again
+        if self.granted is not None and win is not None and win != self.granted:
+            self.fail("window-field", "%s: segment with sequence number %d carries window %r, the last SegmentAck granted %d "
+                      "(only the first segment of a message offers the sender's own proposal)" % (self.what, seq, win, self.granted))
         self.unacked.add(seq)
         limit = 1 if self.granted is None else self.granted
         self.worst = max(self.worst, len(self.unacked))
@@ -150,7 +167,7 @@ class InFlight:
     def feed(self, outs, ptype, seq_at):
         for o in outs:
             if o["o"] == "send" and o["h"][0] == ptype and o["h"][1]:
-                self.sent(o["h"][seq_at])
+                self.sent(o["h"][seq_at], o["h"][seq_at + 1])
 
 
 def play_acks(L, flight, outs, ptype, rng, win=None, vary=False):
@@ -251,7 +268,7 @@ def judge_client_cut(fail, cfg, n, exp, all_out, gone, what="request"):
 
 # ---------------------------------------------------------------- client role
 
-def client_scenario(ctx, label, cfg, di, n, rng, loss=0, vary=False, rseed=None):
+def client_scenario(ctx, label, cfg, di, n, rng, loss=0, vary=False, rseed=None, fixed_win=None):
     """request of n octets toward peer 0; conforming server acks until all is out.
     loss = k: the first segment (or the server's first ack) is lost k times, i.e. the
     segment timer fires k times before any SegmentAck arrives.  vary: the server changes
@@ -266,7 +283,7 @@ def client_scenario(ctx, label, cfg, di, n, rng, loss=0, vary=False, rseed=None)
                  "the limits a peer announces in its I-Am are never used for requests: %s" % e)
         L = T.Lock(cfg, [[0, di]] if di else [])
     L.label = label
-    fail = Fail(ctx, L, label, {"role": "client", "cfg": cfg, "di": di, "n": n, "loss": loss, "vary": vary, "rseed": rseed})
+    fail = Fail(ctx, L, label, {"role": "client", "cfg": cfg, "di": di, "n": n, "loss": loss, "vary": vary, "rseed": rseed, "fixed_win": fixed_win})
     r = L.request(0, 200, pattern(n))
     outs = list(r["out"])
     flight = InFlight(fail, "request")
@@ -285,7 +302,7 @@ def client_scenario(ctx, label, cfg, di, n, rng, loss=0, vary=False, rseed=None)
             outs = more
     exp = client_expect(cfg, di, n)
     if exp[0] == "segmented":
-        all_out += play_acks(L, flight, outs, 0, rng, win=1 if loss else rng.choice([1, 2, 3, cfg["window"]]), vary=vary)
+        all_out += play_acks(L, flight, outs, 0, rng, win=fixed_win or (1 if loss else rng.choice([1, 2, 3, cfg["window"]])), vary=vary)
     judge_client_cut(fail, cfg, n, exp, all_out, not L.smap.clientTransactions)
     expect = exp[0]
     ctx.count("client-class", ("client", expect if isinstance(expect, str) else "abort%d" % expect[1], bool(vary)))
@@ -382,7 +399,7 @@ def mixed_role_scenario(ctx, label, cfg, s0, shapes, rng, rseed=None):
 
 # ---------------------------------------------------------------- server role
 
-def server_scenario(ctx, label, cfg, di, hdr, n, rng, loss=0, vary=False, rseed=None):
+def server_scenario(ctx, label, cfg, di, hdr, n, rng, loss=0, vary=False, rseed=None, fixed_win=None):
     """request with capability header `hdr` from peer 0; application answers with n octets;
     loss = k: the first response segment (or the client's first ack) is lost k times"""
     if rseed is None:
@@ -390,7 +407,7 @@ def server_scenario(ctx, label, cfg, di, hdr, n, rng, loss=0, vary=False, rseed=
     rng = random.Random(rseed)      # every random choice of the scenario derives from rseed (replayable)
     L = T.Lock(cfg, [])
     L.label = label
-    fail = Fail(ctx, L, label, {"role": "server", "cfg": cfg, "di": di, "hdr": hdr, "n": n, "loss": loss, "vary": vary, "rseed": rseed})
+    fail = Fail(ctx, L, label, {"role": "server", "cfg": cfg, "di": di, "hdr": hdr, "n": n, "loss": loss, "vary": vary, "rseed": rseed, "fixed_win": fixed_win})
     if di:
         # the application learns about the peer (I-Am) BEFORE the request arrives: its
         # maximum may be larger or smaller than what the request header will announce
@@ -445,7 +462,7 @@ def server_scenario(ctx, label, cfg, di, hdr, n, rng, loss=0, vary=False, rseed=
     else:
         expect = "segmented"
     if expect == "segmented":
-        all_out += play_acks(L, flight, outs, 3, rng, win=1 if loss else rng.choice([1, 2, 3, cfg["window"]]), vary=vary)
+        all_out += play_acks(L, flight, outs, 3, rng, win=fixed_win or (1 if loss else rng.choice([1, 2, 3, cfg["window"]])), vary=vary)
     acks = data_frames(all_out, 3)
     check_lengths(fail, all_out, 0, announced, "response")
     aborts = [o for o in all_out if o["o"] == "send" and o["h"][0] == 7]
@@ -557,6 +574,183 @@ def reception_scenario(ctx, label, own, prop, direction, pos, kind):
     return L
 
 
+# ---------------------------------------------------------------- the device-information cache
+
+def cache_ops(rng, n):
+    """a history of DeviceInfoCache operations over 3 addresses and 4 device instances"""
+    ops, nacq = [], 0
+    for _ in range(n):
+        r = rng.random()
+        if r < 0.6 or not ops:
+            ops.append(["iam", 1000 + rng.randrange(4), rng.randrange(3), rng.choice(APDUS), rng.randrange(4)])
+        elif r < 0.8:
+            if rng.random() < 0.7:
+                ops.append(["acq", "a", rng.randrange(3)])
+            else:
+                ops.append(["acq", "i", 1000 + rng.randrange(4)])
+            nacq += 1
+        else:
+            ops.append(["rel", rng.randrange(max(1, nacq))])
+    return ops
+
+
+def cache_shard(ctx, items):
+    """the REAL DeviceInfoCache against Model.Tsm.Cache, operation by operation (I-Ams arrive
+    as hand-encoded octets decoded by the library), plus the oracle: right after an I-Am of
+    instance i from address a the lookups by a and by i return what it announced."""
+    L = T.Lock(T.default_cfg(), [])
+    from bacpypes.app import DeviceInfoCache
+    addrs, insts = [0, 1, 2], [1000, 1001, 1002, 1003]
+    cases, impl = [], []
+    for ops in items:
+        cache = DeviceInfoCache()
+        handles, views = [], []
+
+        def view():
+            out = []
+            for k in [L.addrs[a] for a in addrs] + insts:
+                rec = cache.get_device_info(k)
+                if rec is None:
+                    out.append(None)
+                    continue
+                seg = rec.segmentationSupported
+                out.append([rec.deviceIdentifier, L.peer_of(rec.address), rec.maxApduLengthAccepted,
+                            T.SEG_NAMES.index(seg) if seg in T.SEG_NAMES else -1,
+                            rec.maxSegmentsAccepted, rec.maxNpduLength, getattr(rec, "_ref_count", 0)])
+            return out
+        case = {"op": "cache", "ops": ops, "addrs": addrs, "insts": insts}
+        for n, o in enumerate(ops):
+            try:
+                if o[0] == "iam":
+                    cache.iam_device_info(L.decode_iam(L.iam_octets(o[1], o[3], T.SEG_CODES[o[4]]), L.addrs[o[2]]))
+                elif o[0] == "acq":
+                    rec = cache.acquire(L.addrs[o[2]] if o[1] == "a" else o[2])
+                    if rec is not None:
+                        handles.append(rec)
+                elif o[0] == "rel":
+                    if o[1] < len(handles):
+                        try:
+                            cache.release(handles[o[1]])
+                        except RuntimeError:
+                            pass          # "reference count": modelled as no change
+            except Exception as e:
+                ctx.fail("cache-exception", dict(case, upto=n + 1), "DeviceInfoCache raised %s: %s at operation %d %r" % (
+                    type(e).__name__, e, n, o))
+            v = view()
+            views.append(v)
+            if o[0] == "iam":
+                want = [o[1], o[2], o[3], o[4]]
+                by_a, by_i = v[addrs.index(o[2])], v[len(addrs) + insts.index(o[1])]
+                if by_a is None or by_a[:4] != want or by_i is None or by_i[:4] != want:
+                    ctx.fail("latest-iam", dict(case, upto=n + 1),
+                             "after the I-Am of device %d from address %d (max APDU %d, %s) the cache returns %r for the "
+                             "address and %r for the instance" % (o[1], o[2], o[3], T.SEG_NAMES[o[4]], by_a, by_i))
+        cases.append(case)
+        impl.append({"r": "ok", "views": views})
+    if ctx.model_ok:
+        model = core.Driver("drv_c12").ask(cases)
+        ctx.compare_stream("cache", cases, impl, model,
+                           sig=lambda c, m: (len(c["ops"]), sum(1 for o in c["ops"] if o[0] == "iam") % 5,
+                                             sum(1 for v in (m.get("views") or [[]])[-1] if v is None)))
+    else:
+        ctx.count("cache", n=len(cases))
+
+
+def cache_history_scenario(ctx, label, rng, rseed=None):
+    """the cache and the state machines together: I-Ams of 2..4 device instances from 2..3
+    addresses (devices announcing again, other instances taking an address over) interleaved
+    with requests that are in flight / retried / finished.  Oracle: every request is sized
+    by the LATEST I-Am received from its destination address."""
+    if rseed is None:
+        rseed = rng.getrandbits(48)
+    rng = random.Random(rseed)
+    cfg = T.default_cfg()
+    cfg.update(seg=3, window=rng.choice([1, 2, 4]), maxApdu=1476, maxSegs=None, retries=3)
+    L = T.Lock(cfg, [])
+    L.label = label
+    fail = Fail(ctx, L, label, {"role": "cache-history", "rseed": rseed})
+    naddr, ninst = rng.choice([2, 3]), rng.choice([2, 3, 4])
+    latest = {}                     # address -> capabilities of the latest I-Am from it
+    where = {}                      # instance -> address it announced from last
+
+    def live_to(a):
+        return [t for t in L.smap.clientTransactions if L.peer_of(t.pdu_address) == a]
+
+    def finish(a):
+        for t in list(live_to(a)):
+            if t.state == 1:        # still sending: play the peer
+                pass
+            L.frame(a, {"t": 2, "id": t.invokeID, "svc": 200})
+            if t in L.smap.clientTransactions:
+                L.frame(a, {"t": 7, "srv": 1, "id": t.invokeID, "reason": 0})
+
+    def big_request(a):
+        di = latest[a]
+        n = rng.choice([di["maxApdu"] - 3, 2 * di["maxApdu"], di["maxApdu"] + 200])
+        n_before = len(live_to(a))
+        r = L.request(a, 200, pattern(n))
+        outs = list(r["out"])
+        flight = InFlight(fail, "request to %d" % a)
+        flight.feed(outs, 0, 7)
+        exp = client_expect(cfg, di, n)
+        if exp[0] == "segmented":
+            # play_acks talks to peer 0 only: ack by hand here
+            guard = 0
+            cur = outs
+            while guard < 300:
+                guard += 1
+                segs = [o for o in cur if o["o"] == "send" and o["h"][0] == 0 and o["h"][1]]
+                if not segs:
+                    break
+                last = segs[-1]["h"]
+                flight.acked(last[7], 2)
+                cur = L.frame(a, {"t": 4, "srv": 1, "id": last[6], "seq": last[7], "win": 2})["out"]
+                flight.feed(cur, 0, 7)
+                outs += cur
+                if not last[2]:
+                    break
+        judge_client_cut(fail, cfg, n, exp, outs, len(live_to(a)) == n_before,
+                         "request to address %d (latest I-Am from it: device %d, max APDU %d, %s)" % (
+                             a, di["inst"], di["maxApdu"], T.SEG_NAMES[di["seg"]]))
+        finish(a)
+
+    for _step in range(rng.choice([6, 9, 12])):
+        r = rng.random()
+        if r < 0.45 or not latest:
+            i, a = 1000 + rng.randrange(ninst), rng.randrange(naddr)
+            if i in where and where[i] != a:
+                finish(a)
+                finish(where[i])    # the instance moves: requests holding either record end first
+                latest.pop(where[i], None) if L.view(where[i]) is None else None
+            m, g = rng.choice(APDUS), rng.randrange(4)
+            try:
+                L.iam(i, a, m, g, peers=tuple(range(naddr)))
+            except Exception as e:
+                fail("cache-exception", "DeviceInfoCache.iam_device_info raised %s: %s on the I-Am of device %d from address %d" % (
+                    type(e).__name__, e, i, a))
+                return L
+            where[i] = a
+            latest[a] = {"maxApdu": m, "seg": g, "maxSegs": None, "maxNpdu": None, "inst": i}
+            for b in list(latest):
+                if L.view(b) is None:
+                    latest.pop(b)   # the address lost its record (its device moved away)
+        elif r < 0.65:
+            a = rng.choice(sorted(latest))
+            L.request(a, 200, b"small")         # stays in flight (maybe retried below)
+        elif r < 0.75:
+            if L.vt.tm.tasks:
+                L.fire_next()                     # a retry of something in flight
+        elif r < 0.85:
+            a = rng.choice(sorted(latest))
+            finish(a)
+        else:
+            big_request(rng.choice(sorted(latest)))
+    for a in sorted(latest):
+        big_request(a)
+    ctx.count("cache-history", (naddr, ninst, len(L.events) // 8))
+    return L
+
+
 def relearn_grid():
     """(m1, seg1) -> (m2, seg2, maxsegs2): the record changes between attempt and retry"""
     out = []
@@ -588,6 +782,17 @@ def vary_grid():
                 for nseg in (7, 19, 40):
                     for rep in range(2):
                         out.append(("v", own, role, m, nseg, rep))
+    return out
+
+
+def long_grid(quick):
+    """transfers of more than 256 segments (the wire sequence number wraps), both directions,
+    own proposal 16, the receiver grants a smaller window"""
+    out = []
+    for nseg in ((257, 267) if quick else (257, 267, 513, 600)):
+        for role in ("client", "server"):
+            for grant in ((4,) if quick else (4, 1, 7)):
+                out.append(("G", nseg, role, grant))
     return out
 
 
@@ -707,6 +912,8 @@ def shard(ctx, spec):
                     2 * (min(m1, m2) - 6), 2 * (min(m1, m2) - 6) + 1, (m1 + m2) // 2}
             for n in sorted(x for x in lens if 0 <= x <= 6000):
                 locks.append(relearn_scenario(ctx, "relearn-%d-%d" % (idx, n), dict(cfg), d1, d2, n, rng))
+        elif it[0] == "H":
+            locks.append(cache_history_scenario(ctx, "cache-history-%d" % idx, rng))
         elif it[0] == "m":
             _m, s0, shapes = it
             cfg.update(seg=3, window=2, maxApdu=1024, maxSegs=16)
@@ -720,6 +927,15 @@ def shard(ctx, spec):
             else:
                 hdr = {"maxResp": {50: 0, 128: 1}[m], "maxSegs": 7, "sa": 1}
                 locks.append(server_scenario(ctx, "vary-s-%d" % idx, dict(cfg), None, hdr, (m - 5) * nseg - 3, rng, vary=True))
+        elif it[0] == "G":
+            _g, nseg, role, grant = it
+            cfg.update(seg=3, window=16, maxSegs=None, maxApdu=1024)
+            if role == "client":
+                di = {"maxApdu": 50, "seg": 3, "maxSegs": None, "maxNpdu": None}
+                locks.append(client_scenario(ctx, "long-c-%d" % idx, dict(cfg), di, 44 * nseg - 3, rng, fixed_win=grant))
+            else:
+                hdr = {"maxResp": 0, "maxSegs": 7, "sa": 1}
+                locks.append(server_scenario(ctx, "long-s-%d" % idx, dict(cfg), None, hdr, 45 * nseg - 3, rng, fixed_win=grant))
         elif it[0] == "l":
             _l, own, role, loss, m, nseg = it
             cfg.update(seg=3, window=own, maxSegs=64, maxApdu=1024, retries=3)
@@ -916,13 +1132,15 @@ def run_case(ctx, case, label):
     p = case["params"]
     rng = ctx.sub_rng("c12/replay")
     if p["role"] == "client":
-        L = client_scenario(ctx, label, p["cfg"], p["di"], p["n"], rng, loss=p.get("loss", 0), vary=p.get("vary", False), rseed=p.get("rseed"))
+        L = client_scenario(ctx, label, p["cfg"], p["di"], p["n"], rng, loss=p.get("loss", 0), vary=p.get("vary", False), rseed=p.get("rseed"), fixed_win=p.get("fixed_win"))
+    elif p["role"] == "cache-history":
+        L = cache_history_scenario(ctx, label, rng, rseed=p["rseed"])
     elif p["role"] == "relearn":
         L = relearn_scenario(ctx, label, p["cfg"], p["d1"], p["d2"], p["n"], rng, rseed=p.get("rseed"))
     elif p["role"] == "mixed":
         L = mixed_role_scenario(ctx, label, p["cfg"], p["s0"], [tuple(x) for x in p["shapes"]], rng, rseed=p.get("rseed"))
     elif p["role"] == "server":
-        L = server_scenario(ctx, label, p["cfg"], p["di"], p["hdr"], p["n"], rng, loss=p.get("loss", 0), vary=p.get("vary", False), rseed=p.get("rseed"))
+        L = server_scenario(ctx, label, p["cfg"], p["di"], p["hdr"], p["n"], rng, loss=p.get("loss", 0), vary=p.get("vary", False), rseed=p.get("rseed"), fixed_win=p.get("fixed_win"))
     elif p["role"] == "reception":
         L = reception_scenario(ctx, label, p["own"], p["proposed"], p["direction"], p["pos"], p["kind"])
     else:
@@ -930,9 +1148,36 @@ def run_case(ctx, case, label):
     T.compare(ctx, "corpus", [L], exe="drv_c12")
 
 
+def iam_probe(ctx):
+    """an I-Am is OCTETS: every segmentation code of the standard, written by hand, must come
+    out of the library's decoder (and go into the cache) under the name the standard gives it"""
+    cfg = T.default_cfg()
+    L = T.Lock(cfg, [])
+    for idx, name in enumerate(T.SEG_NAMES):
+        code = T.SEG_CODES[idx]
+        for m in (50, 206, 1476):
+            octets = L.iam_octets(4000 + idx, m, code)
+            case = {"iam_octets": octets.hex(), "segmentation_code": code, "standard_name": name}
+            try:
+                iam = L.decode_iam(octets, L.addrs[idx])
+                L.cache.iam_device_info(iam)
+                rec = L.cache.get_device_info(L.addrs[idx])
+            except Exception as e:
+                ctx.fail("iam-decoding", case, "I-Am octets %s could not be decoded / cached: %s: %s" % (octets.hex(), type(e).__name__, e))
+                continue
+            got = None if rec is None else (rec.segmentationSupported, rec.maxApduLengthAccepted, rec.deviceIdentifier)
+            if got != (name, m, 4000 + idx):
+                ctx.fail("iam-decoding", case, "I-Am octets %s (segmentation code %d = %s, max APDU %d) decoded and cached as %r" % (
+                    octets.hex(), code, name, m, got))
+            ctx.count("iam-probe", (name, m))
+
+
 def run(ctx):
+    iam_probe(ctx)
     for name, c in corpus_cases():
-        if "params" in c:
+        if c.get("op") == "cache":
+            cache_shard(ctx, [c["ops"]])
+        elif "params" in c:
             run_case(ctx, c, "corpus/" + name)
         else:
             e2e_shard(ctx, [c])
@@ -953,7 +1198,15 @@ def run(ctx):
     specs.append(("window", wins))
     specs.append(("loss", list(enumerate(loss_grid()))))
     specs.append(("vary", list(enumerate(vary_grid()))))
+    lg = list(enumerate(long_grid(ctx.quick)))
+    for i in range(4):
+        if lg[i::4]:
+            specs.append(("long", lg[i::4]))
     specs.append(("mixed", list(enumerate(mixed_grid()))))
+    nh = 120 if ctx.quick else 2400
+    hg = [(i, ("H",)) for i in range(nh)]
+    for i in range(4):
+        specs.append(("cache-history", hg[i::4]))
     rl = list(enumerate(relearn_grid()))
     if ctx.quick:
         rl = [x for x in rl if rng.randrange(4) == 0]
@@ -967,6 +1220,9 @@ def run(ctx):
     cases = e2e_cases(ctx, ctx.sub_rng("c12/e2e"))
     chunks = [cases[i::16] for i in range(16)]
     core.run_shards(ctx, "harness.c12", "e2e_shard", [c for c in chunks if c])
+    crng = ctx.sub_rng("c12/cache")
+    histories = [cache_ops(crng, crng.choice([3, 6, 10, 16])) for _ in range(400 if ctx.quick else 12000)]
+    core.run_shards(ctx, "harness.c12", "cache_shard", [histories[i::8] for i in range(8)])
     rc = e2e_relearn_cases()
     core.run_shards(ctx, "harness.c12", "e2e_relearn_shard", [rc[i::4] for i in range(4)])
 
@@ -986,6 +1242,12 @@ def replay(ctx, payload):
     case = rec.get("case")
     if isinstance(case, dict) and "params" in case:
         run_case(ctx, case, "replay")
+        return
+    if isinstance(case, dict) and case.get("op") == "cache":
+        cache_shard(ctx, [case["ops"][:case.get("upto", len(case["ops"]))]])
+        return
+    if isinstance(case, dict) and "iam_octets" in case:
+        iam_probe(ctx)
         return
     if isinstance(case, dict) and case.get("e2e") == "relearn":
         e2e_relearn_shard(ctx, [case])
